@@ -588,3 +588,149 @@ Proof.
   intros HI. assert (Hd : NoDup (map fst (s_urrs s))) by apply HI.
   destruct (emit_ref_sub extra d rs (s_urrs s) Hd) as [A B]. apply RefInv_urrs; assumption.
 Qed.
+
+(* ---------------------------------------------------------------- C12 (b): dissociation *)
+
+(* the outcome of a DQuery / DUpdate call as the model data plane computes it *)
+Definition query_ok (e : env) (c : sctx) (k : kind) (id : N) : bool :=
+  negb (fails e DQuery k id) && dp_has (c_dp c) (s_lid (c_s c), k, id).
+
+Lemma drv_query e c k id :
+  drv e c DQuery k id = (mkCtx (c_s c) (c_dp c) (c_out c ++ [ODrv DQuery k (s_lid (c_s c)) id (query_ok e c k id)]),
+                         query_ok e c k id).
+Proof. unfold drv, dp_call, query_ok. destruct (fails e DQuery k id); reflexivity. Qed.
+
+(* last PDR gone (1 -> 0): exactly one QueryURR driver call; its reports come back with TERMR or-ed in *)
+Theorem diassociate_last e u c inf :
+  alookup u (s_urrs (c_s c)) = Some inf -> ui_ref inf = 1 ->
+  diassociate e u c =
+    (mkCtx (set_urrs (aset u (with_ref inf 0) (s_urrs (c_s c))) (c_s c)) (c_dp c)
+           (c_out c ++ [ODrv DQuery KURR (s_lid (c_s c)) u (query_ok e c KURR u)]),
+     if query_ok e c KURR u then map (or_trig USAR_TRIG_TERMR) (usage e DQuery u) else []).
+Proof.
+  intros Hu Hr. unfold diassociate. rewrite Hu, Hr. cbn [N.ltb N.compare N.sub N.eqb ui_ref Pos.compare Pos.compare_cont].
+  replace (1 - 1) with 0 by reflexivity. cbn [N.eqb]. rewrite drv_query. reflexivity.
+Qed.
+
+(* still referenced (n -> n-1 > 0): no driver call, no report *)
+Theorem diassociate_shared e u c inf :
+  alookup u (s_urrs (c_s c)) = Some inf -> 1 < ui_ref inf ->
+  diassociate e u c = (upd_s c (fun s => set_urrs (aset u (with_ref inf (ui_ref inf - 1)) (s_urrs s)) s), []).
+Proof.
+  intros Hu Hr. unfold diassociate. rewrite Hu.
+  destruct (N.ltb_spec 0 (ui_ref inf)) as [_|Hbad]; [|lia]. cbn [ui_ref].
+  destruct (N.eqb_spec (ui_ref inf - 1) 0) as [Hz|_]; [lia|]. reflexivity.
+Qed.
+
+Theorem diassociate_idle e u c :
+  (alookup u (s_urrs (c_s c)) = None \/ exists inf, alookup u (s_urrs (c_s c)) = Some inf /\ ui_ref inf = 0) ->
+  diassociate e u c = (c, []).
+Proof.
+  intros [Hu|[inf [Hu Hr]]]; unfold diassociate; rewrite Hu; [reflexivity|]. rewrite Hr. reflexivity.
+Qed.
+
+(* with the invariant, the stored count IS the number of PDRs naming u *)
+Corollary diassociate_last_RefOK e u c inf :
+  RefOK (c_s c) -> alookup u (s_urrs (c_s c)) = Some inf -> pdr_refs (c_s c) u = 1 ->
+  snd (diassociate e u c) = (if query_ok e c KURR u then map (or_trig USAR_TRIG_TERMR) (usage e DQuery u) else []) /\
+  c_out (fst (diassociate e u c)) = c_out c ++ [ODrv DQuery KURR (s_lid (c_s c)) u (query_ok e c KURR u)].
+Proof.
+  intros [_ [_ Hr]] Hu Hp. rewrite (diassociate_last e u c inf Hu); [split; reflexivity|]. rewrite (Hr _ _ Hu). exact Hp.
+Qed.
+
+Corollary diassociate_shared_RefOK e u c inf :
+  RefOK (c_s c) -> alookup u (s_urrs (c_s c)) = Some inf -> 1 < pdr_refs (c_s c) u ->
+  snd (diassociate e u c) = [] /\ c_out (fst (diassociate e u c)) = c_out c.
+Proof.
+  intros [_ [_ Hr]] Hu Hp. rewrite (diassociate_shared e u c inf Hu); [split; reflexivity|]. rewrite (Hr _ _ Hu). exact Hp.
+Qed.
+
+(* ---------------------------------------------------------------- C12 (c): Remove URR / Query URR *)
+
+Definition remove_ok (c : sctx) (k : kind) (id : N) : bool := dp_has (c_dp c) (s_lid (c_s c), k, id).
+
+Theorem remove_urr_termr e i c inf :
+  alookup i (s_urrs (c_s c)) = Some inf ->
+  snd (remove_urr e (Some i) c) =
+    (if remove_ok c KURR i then map (or_trig USAR_TRIG_TERMR) (usage e DRemove i) else []) /\
+  c_out (fst (remove_urr e (Some i) c)) = c_out c ++ [ODrv DRemove KURR (s_lid (c_s c)) i (remove_ok c KURR i)] /\
+  exists inf', alookup i (s_urrs (c_s (fst (remove_urr e (Some i) c)))) = Some inf' /\ ui_removed inf' = true /\
+               ui_seqn inf' = ui_seqn inf /\ ui_ref inf' = ui_ref inf.
+Proof.
+  intros Hu. unfold remove_urr. rewrite Hu. unfold drv, dp_call, remove_ok. cbn [upd_s c_s c_dp set_urrs s_lid].
+  destruct (dp_has (c_dp c) (s_lid (c_s c), KURR, i)); cbn [fst snd c_out c_s s_urrs];
+    (split; [reflexivity|]; split; [reflexivity|]; eexists; split; [apply alookup_aset_same|]; repeat split).
+Qed.
+
+Theorem query_urr_immer e i c inf :
+  alookup i (s_urrs (c_s c)) = Some inf ->
+  query_urr e (Some i) c =
+    (mkCtx (c_s c) (c_dp c) (c_out c ++ [ODrv DQuery KURR (s_lid (c_s c)) i (query_ok e c KURR i)]),
+     if query_ok e c KURR i then map (or_trig USAR_TRIG_IMMER) (usage e DQuery i) else []).
+Proof. intros Hu. unfold query_urr. rewrite Hu, drv_query. reflexivity. Qed.
+
+(* every IE of a Session Deletion Response carries TERMR *)
+Theorem emit_termr_all d urrs rs ie :
+  In ie (snd (emit USAR_TRIG_TERMR d urrs rs)) -> flag_of USAR_TRIG_TERMR (ur_trig ie) = true.
+Proof.
+  intros H. destruct (emit_ies_in _ _ _ _ _ H) as [r [_ [inf [_ E]]]]. rewrite E. apply termr_in_ie.
+Qed.
+
+(* ---------------------------------------------------------------- finding: Create PDR for an id the session already has *)
+
+(* Create PDR 1 {URR 7}; a second Create PDR 1 {URR 7} (the driver rejects it, but refPdrNum was already
+   incremented and the PDR entry overwritten); Remove PDR 1: the URR has lost its last PDR, yet no usage report
+   is returned and its reference count stays 1 with no PDR left. *)
+Definition dup_pdr_history : list event :=
+  [EvRecv 0 1 (MAssocSetup (IeVal 0) []) (mkEnv [] []);
+   EvRecv 0 2 (MEst (IeVal 0) (IeVal 10)
+     (mkOps [] [] [mkUrrOp (Some 7) (Some 2) None] [] [mkPdrOp (Some 1) [7] true false] [] [] [] [] [] [] [] [] [] [] []))
+     (mkEnv [] []);
+   EvRecv 0 3 (MMod 1 IeAbsent (mkOps [] [] [] [] [mkPdrOp (Some 1) [7] true false] [] [] [] [] [] [] [] [] [] [] []))
+     (mkEnv [] []);
+   EvRecv 0 4 (MMod 1 IeAbsent (mkOps [] [] [] [] [] [] [] [] [] [Some 1] [] [] [] [] [] []))
+     (mkEnv [] [(DQuery, 7, [mkRpt 7 1 0 [10; 10; 10; 1; 1; 1] 5 100 200])])].
+
+Example create_pdr_existing_id_refuted :
+  match run (init 0 1) dup_pdr_history with
+  | Ok (w, os) =>
+      nth 3 os [] = [ODrv DRemove KPDR 1 1 true; OSend 0 (PModRsp 4 10 CauseAccepted []) false] /\
+      map (option_map (fun s => (s_pdrs s, map (fun x => (fst x, ui_ref (snd x))) (s_urrs s)))) (w_slots w)
+        = [Some ([], [(7, 1)])]
+  | Fault _ => False
+  end.
+Proof. vm_compute. split; reflexivity. Qed.
+
+(* ---------------------------------------------------------------- the per-operation family, stated plainly *)
+
+Theorem RefInv_unfold s :
+  RefInv s <->
+  ((NoDup (map fst (s_pdrs s)) /\ NoDup (map fst (s_urrs s)) /\
+    forall u inf, alookup u (s_urrs s) = Some inf -> ui_ref inf = pdr_refs s u) /\
+   (forall p us, alookup p (s_pdrs s) = Some us -> NoDup us) /\ N.of_nat (length (s_pdrs s)) < 65536).
+Proof. reflexivity. Qed.
+
+Theorem update_pdr_RefInv e o c : RefInv (c_s c) -> RefInv (c_s (fst (update_pdr e o c))).
+Proof. exact (proj1 (update_pdr_rkeep e o c)). Qed.
+Theorem remove_pdr_RefInv e id c : RefInv (c_s c) -> RefInv (c_s (fst (remove_pdr e id c))).
+Proof. exact (proj1 (remove_pdr_rkeep e id c)). Qed.
+Theorem create_urr_RefInv e o c : RefInv (c_s c) -> RefInv (c_s (create_urr e o c)).
+Proof. exact (proj1 (create_urr_rkeep e o c)). Qed.
+Theorem update_urr_RefInv e o c : RefInv (c_s c) -> RefInv (c_s (fst (update_urr e o c))).
+Proof. exact (proj1 (update_urr_rkeep e o c)). Qed.
+Theorem remove_urr_RefInv e id c : RefInv (c_s c) -> RefInv (c_s (fst (remove_urr e id c))).
+Proof. exact (proj1 (remove_urr_rkeep e id c)). Qed.
+Theorem query_urr_RefInv e id c : RefInv (c_s c) -> RefInv (c_s (fst (query_urr e id c))).
+Proof. exact (proj1 (query_urr_rkeep e id c)). Qed.
+Theorem simple_RefInv e k id c :
+  RefInv (c_s c) ->
+  RefInv (c_s (create_simple e k id c)) /\ RefInv (c_s (update_simple e k id c)) /\ RefInv (c_s (remove_simple e k id c)).
+Proof.
+  intros H. split; [apply create_simple_rkeep; exact H|]. split; [apply update_simple_rkeep | apply remove_simple_rkeep]; exact H.
+Qed.
+Theorem orders_once : (occurs CPDR est_order <= 1)%nat /\ (occurs CPDR mod_order <= 1)%nat.
+Proof. exact (conj est_order_once mod_order_once). Qed.
+Theorem or_trig_flags r :
+  flag_of USAR_TRIG_TERMR (r_trig (or_trig USAR_TRIG_TERMR r)) = true /\
+  flag_of USAR_TRIG_IMMER (r_trig (or_trig USAR_TRIG_IMMER r)) = true.
+Proof. exact (conj (or_trig_termr r) (or_trig_immer r)). Qed.
